@@ -71,6 +71,13 @@ pub type Runner = fn(&str) -> Obs;
 pub const GROUPED: &str = "/*G*/";
 
 pub fn group_values(ts: proc_macro2::TokenStream, in_attr: bool) -> proc_macro2::TokenStream {
+    group_values_n(ts, in_attr, 1)
+}
+
+/// Marker for two nested invisible groups (a fragment forwarded through two macros).
+pub const GROUPED2: &str = "/*GG*/";
+
+pub fn group_values_n(ts: proc_macro2::TokenStream, in_attr: bool, depth: usize) -> proc_macro2::TokenStream {
     use proc_macro2::{Delimiter, Group, Spacing, TokenTree};
     let toks: Vec<TokenTree> = ts.into_iter().collect();
     let mut out: Vec<TokenTree> = vec![];
@@ -90,6 +97,11 @@ pub fn group_values(ts: proc_macro2::TokenStream, in_attr: bool) -> proc_macro2:
                 let span = inner[0].span().join(inner[inner.len() - 1].span()).unwrap_or_else(|| inner[0].span());
                 let mut g = Group::new(Delimiter::None, inner.into_iter().collect());
                 g.set_span(span);
+                for _ in 1..depth {
+                    let mut outer = Group::new(Delimiter::None, std::iter::once(TokenTree::Group(g)).collect());
+                    outer.set_span(span);
+                    g = outer;
+                }
                 out.push(TokenTree::Group(g));
             }
             i = j;
@@ -99,7 +111,7 @@ pub fn group_values(ts: proc_macro2::TokenStream, in_attr: bool) -> proc_macro2:
             TokenTree::Group(g) if g.delimiter() != Delimiter::None => {
                 let after_pound = matches!(out.last(), Some(TokenTree::Punct(p)) if p.as_char() == '#');
                 let enter = in_attr || (after_pound && g.delimiter() == Delimiter::Bracket);
-                let mut ng = Group::new(g.delimiter(), if enter { group_values(g.stream(), true) } else { group_values(g.stream(), false) });
+                let mut ng = Group::new(g.delimiter(), group_values_n(g.stream(), enter, depth));
                 ng.set_span(g.span());
                 out.push(TokenTree::Group(ng));
             }
@@ -111,15 +123,15 @@ pub fn group_values(ts: proc_macro2::TokenStream, in_attr: bool) -> proc_macro2:
 }
 
 pub fn parse_input(src: &str) -> syn::Result<syn::DeriveInput> {
-    match src.strip_suffix(GROUPED) {
-        None => syn::parse_str(src),
-        Some(plain) => {
-            // the plain text must be an item in the first place
-            let _: syn::DeriveInput = syn::parse_str(plain)?;
-            let ts: proc_macro2::TokenStream = plain.parse()?;
-            syn::parse2(group_values(ts, false))
-        }
-    }
+    let (plain, depth) = match (src.strip_suffix(GROUPED), src.strip_suffix(GROUPED2)) {
+        (Some(p), _) => (p, 1),
+        (_, Some(p)) => (p, 2),
+        _ => return syn::parse_str(src),
+    };
+    // the plain text must be an item in the first place
+    let _: syn::DeriveInput = syn::parse_str(plain)?;
+    let ts: proc_macro2::TokenStream = plain.parse()?;
+    syn::parse2(group_values_n(ts, false, depth))
 }
 
 /// `src` = `#[<item>] struct S;` — converts the attribute's meta with `T::from_meta`.
